@@ -677,6 +677,152 @@ pub fn exec_compaction(case: &GCase) -> Outcome {
     })
 }
 
+
+// ---- third sub-check: a compaction that takes as long as the grace period (real time, sampled) ----
+
+#[derive(Clone, Debug, Serialize, Deserialize)]
+pub struct SlowCase {
+    pub chunks: u8,
+    pub backend: u8,
+    /// which request of the compaction is slow: 0 = upload of the merged file, 1 = the catalog write
+    /// that publishes it, 2 = the first other metadata write (job / lease records)
+    pub slow: u8,
+    pub schedule: Vec<u16>,
+}
+
+const SLOW_GRACE_MS: i64 = 2000;
+const SLOW_DELAY_MS: u64 = 2400;
+
+pub fn exec_slow(case: &SlowCase) -> Outcome {
+    let rt = rt_paused();
+    rt.block_on(async {
+        let mut out = Outcome::pass();
+        let core = SimCore::new();
+        let n = 2 + (case.chunks % 3) as usize;
+        let specs: Vec<ChunkSpec> = (0..n).map(|i| ChunkSpec { hours_ago: 1, rows: 1 + i as u8, level: 0, schema: 0 }).collect();
+        let mut world = match CWorld::build(core.clone(), case.backend % 2 == 1, &specs).await {
+            Ok(w) => w,
+            Err(e) => {
+                out.set_fail("build-failed", e);
+                return out;
+            }
+        };
+        let cfg = CompactorConfig {
+            l0_merge_threshold: 2,
+            l0_target_size: 1 << 20,
+            l1_target_size: 1 << 30,
+            l2_target_size: 1 << 30,
+            max_levels: 1,
+            retention_days: 90,
+            gc_grace_period: std::time::Duration::from_millis(SLOW_GRACE_MS as u64),
+            sharding_enabled: false,
+            check_interval: std::time::Duration::from_secs(60),
+            ..Default::default()
+        };
+        let comp = Arc::new(Compactor::new(cfg, core.node(1), world.metadata(1), crate::qenv::storage_config(), Arc::new(cardinalsin::sharding::ShardMonitor::new(Default::default()))));
+        let now_ms = || chrono::Utc::now().timestamp_millis();
+        let mut left_at: BTreeMap<String, i64> = BTreeMap::new();
+        let mut in_catalog: BTreeSet<String> = world.catalog().await.unwrap_or_default().into_iter().map(|x| x.0).collect();
+        let mut slowed = false;
+        let mut deletes = 0u32;
+        for cycle in 0..2 {
+            if cycle == 1 {
+                // the grace period passes for real
+                std::thread::sleep(std::time::Duration::from_millis(SLOW_GRACE_MS as u64 + 150));
+            }
+            let c2 = comp.clone();
+            let h = tokio::spawn(async move {
+                let _ = c2.run_compaction_cycle().await;
+            });
+            core.set_scheduled(true);
+            core.set_gate_nodes(Some(vec![1]));
+            let (mut pos, mut idle, mut step) = (0usize, 0u32, 0u32);
+            loop {
+                quiesce().await;
+                if h.is_finished() {
+                    break;
+                }
+                let pend = core.pending();
+                if pend.is_empty() {
+                    idle += 1;
+                    if idle > 3000 {
+                        out.set_fail("cycle-did-not-finish", format!("cycle {}", cycle));
+                        return out;
+                    }
+                    let nfy = core.arrival.notified();
+                    tokio::select! { _ = nfy => {}, _ = tokio::time::sleep(std::time::Duration::from_secs(5)) => {} }
+                    continue;
+                }
+                idle = 0;
+                step += 1;
+                if step > 20_000 {
+                    out.set_fail("cycle-did-not-finish", "more than 20000 requests");
+                    return out;
+                }
+                // date the instant each chunk leaves the catalog (observed at the latest one request after it happened)
+                let now_set: BTreeSet<String> = world.catalog().await.unwrap_or_default().into_iter().map(|x| x.0).collect();
+                for p in in_catalog.difference(&now_set) {
+                    left_at.entry(p.clone()).or_insert_with(now_ms);
+                }
+                in_catalog = now_set;
+                let sv = if pos < case.schedule.len() { case.schedule[pos] } else { ((pos as u32 * 7919) % 65521) as u16 };
+                pos += 1;
+                let pick = pend[pick_idx(sv, pend.len())].clone();
+                let d = &pick.desc;
+                let is_merged_upload = d.op == OpKind::Put && d.path.ends_with(".parquet");
+                let is_publish = is_catalog_write(d);
+                let is_other_meta = !is_merged_upload && !is_publish && (d.op == OpKind::Put || d.op == OpKind::Meta);
+                if cycle == 0 && !slowed && [is_merged_upload, is_publish, is_other_meta][case.slow as usize % 3] {
+                    // this request takes longer than the grace period
+                    std::thread::sleep(std::time::Duration::from_millis(SLOW_DELAY_MS));
+                    slowed = true;
+                    out.class(["slow:merged-upload", "slow:publishing-catalog-write", "slow:other-metadata-write"][case.slow as usize % 3]);
+                }
+                if d.op == OpKind::Delete {
+                    deletes += 1;
+                    if in_catalog.contains(&d.path) {
+                        out.set_fail("live-chunk-file-deleted", d.path.clone());
+                        return out;
+                    }
+                    if let Some(t) = left_at.get(&d.path) {
+                        let age = now_ms() - *t;
+                        // the observation of 'left the catalog' lags the fact by at most one scheduling step (milliseconds)
+                        if age < SLOW_GRACE_MS - 250 {
+                            out.set_fail("deleted-before-grace-period:slow-compaction", format!("cycle {}: {} left the catalog {} ms ago, grace period {} ms (the compaction that replaced it took {} ms)", cycle, d.path, age, SLOW_GRACE_MS, SLOW_DELAY_MS));
+                            return out;
+                        }
+                    }
+                }
+                core.release(pick.id, Decision::Proceed);
+            }
+            let _ = h.await;
+            core.set_scheduled(false);
+            core.set_gate_nodes(None);
+            let now_set: BTreeSet<String> = world.catalog().await.unwrap_or_default().into_iter().map(|x| x.0).collect();
+            for p in in_catalog.difference(&now_set) {
+                left_at.entry(p.clone()).or_insert_with(now_ms);
+            }
+            in_catalog = now_set;
+            match world.reachable().await {
+                Ok(got) if got == world.initial_rows => {}
+                Ok(got) => {
+                    out.set_fail("rows-unreachable-after-gc", format!("after cycle {}: {} rows reachable, {} stored", cycle, got.len(), world.initial_rows.len()));
+                    return out;
+                }
+                Err(e) => {
+                    out.set_fail("catalog-unreadable", e);
+                    return out;
+                }
+            }
+        }
+        if deletes > 0 {
+            out.class("sources-deleted-after-the-grace-period");
+        }
+        out.nontrivial = slowed && !left_at.is_empty();
+        out
+    })
+}
+
 fn gop() -> impl Strategy<Value = GOp> {
     let fault_at = prop_oneof![3 => (0u8..3).prop_map(FaultAt::CatalogWrite), 2 => (0u8..40).prop_map(FaultAt::Step), 1 => (0u8..3).prop_map(FaultAt::DataUpload), 1 => (0u8..6).prop_map(FaultAt::OtherMetaWrite)];
     let decision = prop_oneof![2 => Just(Decision::FailBefore), 3 => Just(Decision::FailAfter), 1 => Just(Decision::CrashBefore), 1 => Just(Decision::CrashAfter)];
@@ -716,12 +862,13 @@ pub fn def() -> PropDef {
     PropDef {
         id: "C09",
         level: "exploration",
-        rule: "gc_grace_period in {0,30,300,600} s x retention_days 0-3 x both catalog back-ends; histories of 2-15 (thorough 27) ops from {register a chunk whose newest row is cut-off + {-2 d,-1 h,-45 s,+45 s,+1 h,+1 d}, optionally straddling the cut-off; unreference (catalog delete + the public schedule_deletion, as the call sites do); pin / unpin by a query; 11/43/310/700 s pass; compaction cycle (GC + retention + persist) under a generated schedule, optionally with a pin taken while the k-th delete request is in flight and / or a crash at a generated request; restart}; final phase: restart, grace+5 s pass, one cycle. Oracle at every physical DELETE: the path was unreferenced for >= grace (logical time, +-3 s ambiguity), is not pinned at that instant, is not registered in the catalog, is a known chunk file and not a metadata object; every chunk retention dropped has max_ts < the cut-off computed after the cycle; every deletion persisted by a completed cycle is carried out by the final phase. Non-trivial = a file was deleted, or a pinned / straddling candidate or owed persisted deletion was present. Sub-check compaction-gc: 2-6 real L0 Parquet chunks in two hour buckets, l0_merge_threshold 2-3, L1 target in {1 B, 1.5 KB, 6 KB, 1 GiB}, 2 levels, same grace periods, both back-ends; histories of 2-9 (15) ops from {full compaction cycle (merge, publish, GC, persist) under a generated schedule with an optional fault {error before, error after = applied but reported failed, crash before, crash after} at the n-th catalog write / data upload / other metadata write / request; time passing; restart (the next cycle goes through run(), which loads persisted deletions); pin / unpin of any chunk that ever was in the catalog}. The catalog is observed before every request is released, which dates the instant each chunk left it; same oracle at every physical DELETE (never-referenced files, e.g. unpublished merge outputs, may be deleted), plus after every cycle the rows reachable through the catalog equal the rows stored. Non-trivial there = a file that had been in the catalog was physically deleted.",
+        rule: "gc_grace_period in {0,30,300,600} s x retention_days 0-3 x both catalog back-ends; histories of 2-15 (thorough 27) ops from {register a chunk whose newest row is cut-off + {-2 d,-1 h,-45 s,+45 s,+1 h,+1 d}, optionally straddling the cut-off; unreference (catalog delete + the public schedule_deletion, as the call sites do); pin / unpin by a query; 11/43/310/700 s pass; compaction cycle (GC + retention + persist) under a generated schedule, optionally with a pin taken while the k-th delete request is in flight and / or a crash at a generated request; restart}; final phase: restart, grace+5 s pass, one cycle. Oracle at every physical DELETE: the path was unreferenced for >= grace (logical time, +-3 s ambiguity), is not pinned at that instant, is not registered in the catalog, is a known chunk file and not a metadata object; every chunk retention dropped has max_ts < the cut-off computed after the cycle; every deletion persisted by a completed cycle is carried out by the final phase. Non-trivial = a file was deleted, or a pinned / straddling candidate or owed persisted deletion was present. Sub-check compaction-gc: 2-6 real L0 Parquet chunks in two hour buckets, l0_merge_threshold 2-3, L1 target in {1 B, 1.5 KB, 6 KB, 1 GiB}, 2 levels, same grace periods, both back-ends; histories of 2-9 (15) ops from {full compaction cycle (merge, publish, GC, persist) under a generated schedule with an optional fault {error before, error after = applied but reported failed, crash before, crash after} at the n-th catalog write / data upload / other metadata write / request; time passing; restart (the next cycle goes through run(), which loads persisted deletions); pin / unpin of any chunk that ever was in the catalog}. The catalog is observed before every request is released, which dates the instant each chunk left it; same oracle at every physical DELETE (never-referenced files, e.g. unpublished merge outputs, may be deleted), plus after every cycle the rows reachable through the catalog equal the rows stored. Non-trivial there = a file that had been in the catalog was physically deleted. Sub-check slow-compaction (real time, sampled: 16 cases quick / 160 thorough): grace period 2 s; one request of a real compaction - the merged upload, the publishing catalog write or another metadata write - takes 2.4 s of wall-clock time; no source may be deleted earlier than 2 s (-250 ms observation lag) after it left the catalog, in that cycle or in a second one 2.15 s later.",
         assumptions: &["elapsed time = stored scheduling instants moved into the past (hook + rewrite of the persisted file)", "retention is judged with the cut-off computed after the call, which is >= any cut-off used inside it"],
         subs: || {
             vec![
                 Box::new(Sub::<Case> { name: "history", cases: |t| t.scale(15_000, 5), strategy, exec }),
                 Box::new(Sub::<GCase> { name: "compaction-gc", cases: |t| t.scale(4_000, 6), strategy: gstrategy, exec: exec_compaction }),
+                Box::new(Sub::<SlowCase> { name: "slow-compaction", cases: |t| t.scale(16, 10), strategy: |_| (0u8..3, 0u8..2, 0u8..3, prop::collection::vec(any::<u16>(), 0..10)).prop_map(|(chunks, backend, slow, schedule)| SlowCase { chunks, backend, slow, schedule }).boxed(), exec: exec_slow }),
             ]
         },
     }
